@@ -1,9 +1,12 @@
 #!/bin/bash
 # usage: tools_mut.sh <patch.diff> <ID> [tier]  -- apply a seeded change to /repo, run the check, undo
 P=$1; ID=$2; TIER=${3:-quick}
+LOCK=/tmp/wt/mut.lock
+[ -e $LOCK ] && { echo "REFUSING: another mutation run is active ($LOCK)"; exit 9; }
 cd /repo || exit 9
 [ -z "$(git status --porcelain)" ] || { echo "REFUSING: /repo has uncommitted changes"; exit 9; }
-git apply "$P" || { echo "PATCH DOES NOT APPLY"; exit 9; }
-cd /verif; timeout 3000 ./check $ID --tier $TIER 2>&1 | grep -v "^INCONCLUSIVE" | tail -6; rc=${PIPESTATUS[0]}
-cd /repo && git checkout -- . 
+git apply --check "$P" || { echo "PATCH DOES NOT APPLY"; exit 9; }
+touch $LOCK; trap "cd /repo && git checkout -- . ; rm -f $LOCK" EXIT
+git apply "$P"
+cd /verif; timeout 1500 ./check $ID --tier $TIER 2>&1 | grep -v "^INCONCLUSIVE" | tail -6; rc=${PIPESTATUS[0]}
 echo "check exit=$rc"
